@@ -63,6 +63,13 @@ Skip == /\ l <= Len(Trace) /\ Trace[l].ev \in {"Stutter", "Note", "Rejected", "P
 Hang == /\ Ev("Hang") /\ bad' = (IF Trace[l].by = "handler" THEN bad \cup {<<l, Trace[l].what>>} ELSE bad)
         /\ UNCHANGED <<mws, ref, cfgfp, gens, stats>>
 
+\* the witness - a middleware built when the run began and never touched since - answers its probe suite as it did then (C12: a
+\* response depends only on the configuration, the debug mode and the request; not on what was done to OTHER middlewares)
+Witness == /\ Ev("Witness")
+           /\ bad' = (IF Trace[l].fp = Trace[l].first THEN bad
+                      ELSE bad \cup {<<l, "a middleware that nobody has touched since the run began answers differently now">>})
+           /\ UNCHANGED <<mws, ref, cfgfp, gens, stats>>
+
 Zero == /\ Ev("Zero")
         /\ mws' = Put(mws, Trace[l].mw, ZeroState) /\ cfgfp' = Del(cfgfp, Trace[l].mw)
         /\ gens' = Put(gens, Trace[l].mw, 0)
@@ -161,7 +168,7 @@ Debug ==
 
 Init == l = 1 /\ mws = EmptyFn /\ ref = EmptyFn /\ cfgfp = EmptyFn /\ gens = EmptyFn /\ bad = {}
         /\ stats = [segments |-> 0, observations |-> 0, compared |-> 0, weak |-> 0, debugOn |-> 0]
-Next == Reset \/ Skip \/ Zero \/ New \/ Reconf \/ SetDebug \/ Observe \/ Pair \/ Reused \/ Debug \/ Hang
+Next == Reset \/ Skip \/ Zero \/ New \/ Reconf \/ SetDebug \/ Observe \/ Pair \/ Reused \/ Debug \/ Hang \/ Witness
 Spec == Init /\ [][Next]_vars
 
 Final == (l = Len(Trace) + 1) =>
